@@ -15,6 +15,7 @@ CONSTANTS
  BudSet = {}
  NTags = 1
  MaxReserve = 0
+ PinAlloc = FALSE
 INIT TraceInit
 NEXT TraceNext
 POSTCONDITION Consumed
